@@ -1,29 +1,997 @@
-//! probe (temporary)
+//! C25 — the Cypher parser never panics and never silently changes numbers.
+//!
+//! (i)  boundary numerals in every numeric position; the number is read back from the AST and
+//!      compared with the written numeral (decimal-string comparison, independent of the model);
+//!      the observation is also printed as a Gallina case for coq/model/Numeral.v.
+//! (ii) grammar-generated queries and character-level mutations under `catch` — any panic is a
+//!      violation; deep nesting is probed in a child process (a stack overflow aborts).
+use samyama::graph::PropertyValue;
+use samyama::query::ast::*;
 use samyama::query::parser::parse_query;
+use vh::*;
 
-fn main() {
-    let a: Vec<String> = std::env::args().collect();
-    let kind = a[1].as_str();
-    let n: usize = a[2].parse().unwrap();
-    let mb: usize = a[3].parse().unwrap();
-    let q = match kind {
+const KNOWN_DEEP: &str = "deep-nesting-stack-overflow";
+
+// ---------------------------------------------------------------- AST readers
+#[derive(Default, Debug)]
+struct Nums {
+    ints: Vec<i128>,
+    floats: Vec<f64>,
+    other: usize,
+}
+
+fn pv(v: &PropertyValue, sign: i128, n: &mut Nums) {
+    match v {
+        PropertyValue::Integer(i) => n.ints.push(sign * (*i as i128)),
+        PropertyValue::Float(f) => n.floats.push(if sign < 0 { -*f } else { *f }),
+        PropertyValue::Array(a) => a.iter().for_each(|x| pv(x, sign, n)),
+        PropertyValue::Map(m) => m.values().for_each(|x| pv(x, sign, n)),
+        _ => {}
+    }
+}
+
+fn ex(e: &Expression, sign: i128, n: &mut Nums) {
+    match e {
+        Expression::Literal(v) => pv(v, sign, n),
+        Expression::Unary { op: UnaryOp::Minus, expr } => ex(expr, -sign, n),
+        Expression::Unary { expr, .. } => ex(expr, sign, n),
+        Expression::Binary { left, right, .. } => {
+            ex(left, sign, n);
+            ex(right, sign, n)
+        }
+        Expression::Index { expr, index } => {
+            ex(expr, sign, n);
+            ex(index, sign, n)
+        }
+        Expression::ListSlice { expr, start, end } => {
+            ex(expr, sign, n);
+            if let Some(s) = start {
+                ex(s, sign, n)
+            }
+            if let Some(s) = end {
+                ex(s, sign, n)
+            }
+        }
+        Expression::Function { args, .. } => args.iter().for_each(|a| ex(a, sign, n)),
+        Expression::ListExpr(xs) => xs.iter().for_each(|a| ex(a, sign, n)),
+        Expression::MapExpr(xs) => xs.iter().for_each(|(_, a)| ex(a, sign, n)),
+        Expression::Variable(_) | Expression::Property { .. } | Expression::Parameter(_) => {}
+        _ => n.other += 1,
+    }
+}
+
+fn node_nums(np: &NodePattern, n: &mut Nums) {
+    if let Some(p) = &np.properties {
+        p.values().for_each(|v| pv(v, 1, n));
+    }
+    if let Some(p) = &np.property_exprs {
+        p.values().for_each(|v| ex(v, 1, n));
+    }
+}
+
+fn pattern_nums(p: &Pattern, n: &mut Nums) {
+    for path in &p.paths {
+        node_nums(&path.start, n);
+        for s in &path.segments {
+            node_nums(&s.node, n);
+        }
+    }
+}
+
+/// every number stored anywhere in the positions the templates use
+fn query_nums(q: &Query) -> Nums {
+    let mut n = Nums::default();
+    if let Some(r) = &q.return_clause {
+        r.items.iter().for_each(|i| ex(&i.expression, 1, &mut n));
+    }
+    if let Some(w) = &q.where_clause {
+        ex(&w.predicate, 1, &mut n);
+    }
+    if let Some(u) = &q.unwind_clause {
+        ex(&u.expression, 1, &mut n);
+    }
+    if let Some(c) = &q.create_clause {
+        pattern_nums(&c.pattern, &mut n);
+    }
+    for m in &q.match_clauses {
+        pattern_nums(&m.pattern, &mut n);
+    }
+    n
+}
+
+fn first_length(q: &Query) -> Option<Option<LengthPattern>> {
+    let p = q.match_clauses.first()?.pattern.paths.first()?;
+    Some(p.segments.first()?.edge.length.clone())
+}
+
+// ---------------------------------------------------------------- independent numeral reader
+/// sign, radix, digit string (lower-case, leading zeros stripped; "" for zero) of an `integer` token
+fn canon_int(tok: &str) -> Option<(bool, u32, String)> {
+    let (neg, body) = match tok.strip_prefix('-') {
+        Some(r) => (true, r),
+        None => (false, tok),
+    };
+    let (radix, digits) = if body.len() > 2 && (body.starts_with("0x") || body.starts_with("0X")) {
+        (16, &body[2..])
+    } else if body.len() > 2 && (body.starts_with("0o") || body.starts_with("0O")) {
+        (8, &body[2..])
+    } else {
+        (10, body)
+    };
+    if digits.is_empty() || !digits.chars().all(|c| c.is_digit(radix)) {
+        return None;
+    }
+    Some((neg, radix, digits.trim_start_matches('0').to_ascii_lowercase()))
+}
+
+/// does the stored value `v` equal the written numeral? (string comparison in the numeral's radix)
+fn same_number(tok: &str, v: i128) -> bool {
+    let Some((neg, radix, digits)) = canon_int(tok) else { return false };
+    let mag = v.unsigned_abs();
+    let shown = match radix {
+        16 => format!("{:x}", mag),
+        8 => format!("{:o}", mag),
+        _ => format!("{}", mag),
+    };
+    let shown = shown.trim_start_matches('0').to_string();
+    if shown != digits {
+        return false;
+    }
+    digits.is_empty() || (neg == (v < 0))
+}
+
+fn is_grammar_float(tok: &str) -> bool {
+    let b = tok.strip_prefix('-').unwrap_or(tok).as_bytes();
+    let mut i = 0;
+    let digits = |i: &mut usize| {
+        let s = *i;
+        while *i < b.len() && b[*i].is_ascii_digit() {
+            *i += 1;
+        }
+        *i - s
+    };
+    let ni = digits(&mut i);
+    let mut nf = 0;
+    let mut dot = false;
+    if i < b.len() && b[i] == b'.' {
+        dot = true;
+        i += 1;
+        nf = digits(&mut i);
+        if nf == 0 {
+            return false;
+        }
+    }
+    let mut exp = false;
+    if i < b.len() && (b[i] == b'e' || b[i] == b'E') {
+        exp = true;
+        i += 1;
+        if i < b.len() && (b[i] == b'+' || b[i] == b'-') {
+            i += 1;
+        }
+        if digits(&mut i) == 0 {
+            return false;
+        }
+    }
+    i == b.len() && ((ni > 0 && dot && nf > 0) || (ni > 0 && !dot && exp) || (ni == 0 && dot))
+}
+
+// ---------------------------------------------------------------- numeral pools
+fn rand_digits(r: &mut Rng, radix: u32, len: usize) -> String {
+    (0..len).map(|_| std::char::from_digit(r.below(radix as u64) as u32, radix).unwrap()).collect()
+}
+
+fn int_pool(r: &mut Rng, extra: usize) -> Vec<String> {
+    let mut v: Vec<String> = [
+        "0", "00", "1", "7", "12", "007", "255", "4294967295", "4294967296",
+        "9223372036854775806", "9223372036854775807", "9223372036854775808", "9223372036854775809",
+        "18446744073709551614", "18446744073709551615", "18446744073709551616", "18446744073709551617",
+        "170141183460469231731687303715884105727", "170141183460469231731687303715884105728",
+        "170141183460469231731687303715884105729", "340282366920938463463374607431768211455",
+        "340282366920938463463374607431768211456", "1234567890123456789012345678901234567890",
+        "9999999999999999999999999999999999999999",
+        "0000000000000000000000000000000000000000009223372036854775807",
+        "0000000000000000000000000000000000000000009223372036854775808",
+        "0x0", "0x1F", "0X1f", "0xff", "0x7FFFFFFFFFFFFFFF", "0x8000000000000000", "0x8000000000000001",
+        "0xFFFFFFFFFFFFFFFF", "0x10000000000000000", "0x7fffffffffffffffffffffffffffffff",
+        "0x80000000000000000000000000000000", "0xffffffffffffffffffffffffffffffff",
+        "0x100000000000000000000000000000000", "0x000000000000000000000000000000000000000001",
+        "0xabcdef", "0XABCDEF", "0o0", "0o17", "0O777", "0o777777777777777777777",
+        "0o1000000000000000000000", "0o1000000000000000000001", "0o1777777777777777777777",
+        "0o2000000000000000000000", "0o0000000000000000000000000000000000000000000007",
+        "0o3777777777777777777777777777777777777777777", "0o4000000000000000000000000000000000000000000",
+    ]
+    .iter()
+    .map(|s| s.to_string())
+    .collect();
+    for _ in 0..extra {
+        let k = r.below(10);
+        let s = match k {
+            0..=4 => {
+                let len = r.range(1, 45) as usize;
+                let mut d = rand_digits(r, 10, len);
+                if r.chance(1, 4) {
+                    d = format!("{}{}", "0".repeat(r.range(1, 30) as usize), d);
+                }
+                d
+            }
+            5 | 6 => {
+                // close to a boundary
+                let base: u128 = *r.pick(&[1u128 << 63, 1u128 << 64, 1u128 << 32, 1u128 << 31, (1u128 << 127)]);
+                let d = r.below(5) as u128;
+                format!("{}", if r.chance(1, 2) { base + d } else { base - d })
+            }
+            7 | 8 => format!("{}{}", if r.chance(1, 2) { "0x" } else { "0X" }, {
+                let len = r.range(1, 36) as usize;
+                let s = rand_digits(r, 16, len);
+                if r.chance(1, 2) { s.to_uppercase() } else { s }
+            }),
+            _ => format!("{}{}", if r.chance(1, 2) { "0o" } else { "0O" }, {
+                let len = r.range(1, 46) as usize;
+                rand_digits(r, 8, len)
+            }),
+        };
+        v.push(s);
+    }
+    v
+}
+
+fn float_pool(r: &mut Rng, extra: usize) -> Vec<String> {
+    let max = "179769313486231570814527423731704356798070567525844996598917476803157260780028538760589558632766878171540458953514382464234321326889464182768467546703537516986049910576551282076245490090389328944075868508455133942304583236903222948165808559332123348274797826204144723168738177180919299881250404026184124858368";
+    // 2^1024 - 2^970: the smallest decimal that rounds to infinity
+    let over = "179769313486231580793728971405303415079934132710037826936173778980444968292764750946649017977587207096330286416692887910946555547851940402630657488671505820681908902000708383676273854845817711531764475730270069855571366959622842914819860834936475292719074168444365510704342711559699508093042880177904174497792";
+    let under = "179769313486231580793728971405303415079934132710037826936173778980444968292764750946649017977587207096330286416692887910946555547851940402630657488671505820681908902000708383676273854845817711531764475730270069855571366959622842914819860834936475292719074168444365510704342711559699508093042880177904174497791";
+    let mut v: Vec<String> = [
+        "1.5", ".5", "0.0", "0.5", "1e5", "1E5", "1e+5", "1e-5", "1.0e10", "1.25E-3", "1e308", "1e309", "1e400",
+        "1.7976931348623157e308", "1.7976931348623158e308", "1.797693134862315807e308",
+        "1.797693134862315808e308", "1.79769313486231580793728971405303e308",
+        "1.79769313486231580793728971405304e308", "17976931348623157e292", "17976931348623159e292",
+        "4.9e-324", "2.4e-324", "1e-400", "0e999999999", "0.0e99999999999999999999", "1e99999999999999999999",
+        "1e-99999999999999999999", "0.000001e99999999999999999999", "123456789012345678901234567890.123456789",
+        "00001.5", "1.0", "3.14159", ".0", ".0e5", "9007199254740993.0", "0.1", "1.3", "16777217.0",
+        "0.30000000000000004", "5e-324", "2.2250738585072014e-308", "1e23", "8.5e22",
+    ]
+    .iter()
+    .map(|s| s.to_string())
+    .collect();
+    v.push(format!("{}.0", max));
+    v.push(format!("{}.0", over));
+    v.push(format!("{}.0", under));
+    v.push(format!("{}.9999", under));
+    v.push(format!("{}e0", over));
+    v.push(format!("0.{}e309", over));
+    v.push(format!("0.{}e309", under));
+    v.push(format!("0.{}e310", under));
+    v.push(format!("0.{}e308", over));
+    for _ in 0..extra {
+        let il = r.below(20) as usize;
+        let fl = r.range(if il == 0 { 1 } else { 0 }, 20) as usize;
+        let mut s = rand_digits(r, 10, il);
+        if fl > 0 {
+            s.push('.');
+            s.push_str(&rand_digits(r, 10, fl));
+        }
+        if fl == 0 || r.chance(1, 2) {
+            let e: i64 = match r.below(4) {
+                0 => r.range(0, 30) as i64,
+                1 => r.range(280, 330) as i64 - il as i64,
+                2 => -(r.range(0, 400) as i64),
+                _ => r.range(0, 5000) as i64,
+            };
+            s.push_str(&format!("{}{}", if r.chance(1, 2) { "e" } else { "E" }, e));
+        }
+        v.push(s);
+    }
+    v
+}
+
+// ---------------------------------------------------------------- running the parser
+enum Res {
+    Ok(Query),
+    Err,
+    Panic(String),
+}
+
+fn run(q: &str) -> Res {
+    let qs = q.to_string();
+    match catch(move || parse_query(&qs)) {
+        Ok(Ok(a)) => Res::Ok(a),
+        Ok(Err(_)) => Res::Err,
+        Err(p) => Res::Panic(p),
+    }
+}
+
+fn g_outcome(o: &Result<Option<String>, bool>) -> String {
+    // Ok(Some(term)) => Ok term ; Err(false) => Err ; Err(true) => Panic
+    match o {
+        Ok(Some(t)) => format!("(Ok {})", t),
+        Ok(None) => unreachable!(),
+        Err(false) => "Err".to_string(),
+        Err(true) => "Panic".to_string(),
+    }
+}
+
+fn g_optn(o: Option<usize>) -> String {
+    match o {
+        Some(n) => format!("(Some {})", n),
+        None => "None".to_string(),
+    }
+}
+
+struct Ctx {
+    out: Out,
+}
+
+impl Ctx {
+    /// one integer-literal position: `tok` is the text that reaches parse_integer_literal
+    fn int_case(&mut self, query: &str, tok: &str, pos: &str) {
+        let idx = self.out.next_index();
+        if !self.out.wants(idx) {
+            self.out.skip();
+            return;
+        }
+        let human = format!("int[{}] {}", pos, query);
+        let (obs, bad): (Result<Option<String>, bool>, Option<String>) = match run(query) {
+            Res::Panic(p) => (Err(true), Some(format!("panic: {}", p))),
+            Res::Err => {
+                self.out.count("int_rejected");
+                (Err(false), None)
+            }
+            Res::Ok(ast) => {
+                let n = query_nums(&ast);
+                if n.ints.len() == 1 && n.floats.is_empty() && n.other == 0 {
+                    let v = n.ints[0];
+                    self.out.count("int_accepted");
+                    let bad = if same_number(tok, v) {
+                        None
+                    } else {
+                        Some(format!("accepted, but the AST holds {} for the numeral {}", v, tok))
+                    };
+                    (Ok(Some(g_z(v))), bad)
+                } else {
+                    (Ok(Some("0%Z".into())), Some(format!("accepted, but the AST holds {:?} for the single numeral {}", n, tok)))
+                }
+            }
+        };
+        self.out.case(format!("CInt {} {}", g_bytes(tok.as_bytes()), g_outcome(&obs)), human.clone(), true);
+        if let Some(d) = bad {
+            self.out.fail(idx, &human, &d, None);
+        }
+    }
+
+    /// one SKIP/LIMIT position; `get` reads the count back from the AST
+    fn count_case(&mut self, query: &str, tok: &str, pos: &str, get: &dyn Fn(&Query) -> Option<usize>) {
+        let idx = self.out.next_index();
+        if !self.out.wants(idx) {
+            self.out.skip();
+            return;
+        }
+        let human = format!("count[{}] {}", pos, query);
+        let (obs, bad) = match run(query) {
+            Res::Panic(p) => ("Panic".to_string(), Some(format!("panic: {}", p))),
+            Res::Err => {
+                self.out.count("count_rejected");
+                ("Err".to_string(), None)
+            }
+            Res::Ok(ast) => match get(&ast) {
+                Some(n) => {
+                    self.out.count("count_accepted");
+                    let bad = if same_number(tok, n as i128) {
+                        None
+                    } else {
+                        Some(format!("accepted, but the AST holds {} for the count {}", n, tok))
+                    };
+                    (format!("(Ok (Some {}))", n), bad)
+                }
+                None => ("(Ok None)".to_string(), Some(format!("accepted, but the count {} was dropped (no SKIP/LIMIT in the AST)", tok))),
+            },
+        };
+        self.out.case(format!("CCount {} {}", g_bytes(tok.as_bytes()), obs), human.clone(), true);
+        if let Some(d) = bad {
+            self.out.fail(idx, &human, &d, None);
+        }
+    }
+
+    /// one variable-length pattern; `lo`/`hi` tokens, skipped text ws1/ws2, form kind
+    fn len_case(&mut self, kind: u8, lo: &str, ws1: &str, ws2: &str, hi: &str, pre: &str, r: &mut Rng) {
+        // kind 0: *   1: *lo   2: lo..hi  3: ..hi  4: lo..  5: ..
+        let (text, form) = match kind {
+            0 => (String::new(), "LpStar".to_string()),
+            1 => (lo.to_string(), format!("(LpExact {})", g_bytes(lo.as_bytes()))),
+            _ => {
+                let has_lo = kind == 2 || kind == 4;
+                let has_hi = kind == 2 || kind == 3;
+                let t = format!(
+                    "{}{}..{}{}",
+                    if has_lo { lo } else { "" },
+                    if has_lo { ws1 } else { "" },
+                    if has_hi { ws2 } else { "" },
+                    if has_hi { hi } else { "" }
+                );
+                let f = format!(
+                    "(LpRange {} {} {})",
+                    if has_lo { format!("(Some ({}, {}))", g_bytes(lo.as_bytes()), g_bytes(ws1.as_bytes())) } else { "None".into() },
+                    g_bytes(if has_hi { ws2.as_bytes() } else { b"" }),
+                    if has_hi { format!("(Some {})", g_bytes(hi.as_bytes())) } else { "None".into() }
+                );
+                (t, f)
+            }
+        };
+        let query = match r.below(4) {
+            0 => format!("MATCH (a)-[*{}{}]->(b) RETURN a", pre, text),
+            1 => format!("MATCH (a)-[r:KNOWS*{}{}]->(b) RETURN a", pre, text),
+            2 => format!("MATCH (a)<-[:A|B *{}{} {{w: 'x'}}]-(b) RETURN b", pre, text),
+            _ => format!("MATCH p = shortestPath((a)-[:T*{}{}]-(b)) RETURN p", pre, text),
+        };
+        let idx = self.out.next_index();
+        if !self.out.wants(idx) {
+            self.out.skip();
+            return;
+        }
+        let human = format!("len[{}] {}", kind, query);
+        let want = |tok: &str, got: Option<usize>| -> bool { got.map_or(false, |g| same_number(tok, g as i128)) };
+        let (obs, bad) = match run(&query) {
+            Res::Panic(p) => ("Panic".to_string(), Some(format!("panic: {}", p))),
+            Res::Err => {
+                self.out.count("len_rejected");
+                ("Err".to_string(), None)
+            }
+            Res::Ok(ast) => match first_length(&ast) {
+                Some(Some(lp)) => {
+                    self.out.count("len_accepted");
+                    let ok = match kind {
+                        0 | 5 => lp.min == Some(1) && lp.max.is_none(),
+                        1 => want(lo, lp.min) && want(lo, lp.max),
+                        2 => want(lo, lp.min) && want(hi, lp.max),
+                        3 => lp.min == Some(1) && want(hi, lp.max),
+                        _ => want(lo, lp.min) && lp.max.is_none(),
+                    };
+                    if kind >= 2 && (!ws1.is_empty() || !ws2.is_empty() || !pre.is_empty()) {
+                        self.out.count("len_accepted_with_skipped_text");
+                    }
+                    let bad = if ok { None } else { Some(format!("accepted, but the AST holds min={:?} max={:?} for *{}", lp.min, lp.max, text)) };
+                    (format!("(Ok ({}, {}))", g_optn(lp.min), g_optn(lp.max)), bad)
+                }
+                other => ("(Ok (None, None))".to_string(), Some(format!("accepted, but the length pattern is missing from the AST: {:?}", other))),
+            },
+        };
+        self.out.case(format!("CLen {} {}", form, obs), human.clone(), true);
+        if let Some(d) = bad {
+            self.out.fail(idx, &human, &d, None);
+        }
+    }
+
+    fn float_case(&mut self, query: &str, tok: &str, neg_outside: bool, pos: &str) {
+        let idx = self.out.next_index();
+        if !self.out.wants(idx) {
+            self.out.skip();
+            return;
+        }
+        let human = format!("float[{}] {}", pos, query);
+        let (acc, pan, bad) = match run(query) {
+            Res::Panic(p) => (false, true, Some(format!("panic: {}", p))),
+            Res::Err => {
+                self.out.count("float_rejected");
+                (false, false, None)
+            }
+            Res::Ok(ast) => {
+                let n = query_nums(&ast);
+                self.out.count("float_accepted");
+                // reference: the correctly rounded binary64 of the written numeral
+                let want: f64 = tok.parse::<f64>().unwrap_or(f64::NAN) * if neg_outside { -1.0 } else { 1.0 };
+                let bad = if n.floats.len() != 1 || !n.ints.is_empty() || n.other != 0 {
+                    Some(format!("accepted, but the AST holds {:?} for the single numeral {}", n, tok))
+                } else if !n.floats[0].is_finite() {
+                    Some(format!("accepted, but the AST holds {} for the numeral {}", n.floats[0], tok))
+                } else if n.floats[0].to_bits() != want.to_bits() {
+                    Some(format!("accepted, but the AST holds {:e} and the numeral {} is {:e}", n.floats[0], tok, want))
+                } else {
+                    None
+                };
+                (true, false, bad)
+            }
+        };
+        self.out.case(
+            format!("CFloat {} {} {}", g_bytes(tok.as_bytes()), g_bool(acc), g_bool(pan)),
+            human.clone(),
+            true,
+        );
+        if let Some(d) = bad {
+            self.out.fail(idx, &human, &d, None);
+        }
+    }
+
+    /// whole-parser robustness: only a panic produces a case (and a failure)
+    fn fuzz(&mut self, q: &str, what: &str) {
+        self.out.count("fuzz_inputs");
+        match run(q) {
+            Res::Ok(_) => self.out.count("fuzz_accepted"),
+            Res::Err => self.out.count("fuzz_rejected"),
+            Res::Panic(p) => {
+                let human = format!("fuzz[{}] {:?}", what, q);
+                let idx = self.out.case(format!("CNoPanic {} true", g_bytes(q.as_bytes())), human.clone(), true);
+                self.out.fail(idx, &human, &format!("panic: {}", p), None);
+            }
+        }
+    }
+}
+
+// ---------------------------------------------------------------- grammar-based generation
+fn gen_ident(r: &mut Rng) -> String {
+    r.pick(&["n", "m", "a", "b", "x", "row", "_v1", "person", "count", "end", "case", "order", "in", "nOt"]).to_string()
+}
+fn gen_num(r: &mut Rng, pool: &[String]) -> String {
+    if r.chance(3, 4) { r.pick(&["0", "1", "2", "42", "3.5", "1e3", "0x1F", "0o7", ".5"]).to_string() } else { r.pick(pool).clone() }
+}
+fn gen_str(r: &mut Rng) -> String {
+    r.pick(&["'a'", "\"b\"", "'it\\'s'", "\"q\\\"q\"", "'\\u0041'", "'\\u00'", "'\\\\'", "''", "'日本語'", "'\\n\\t'", "'a/*b*/c'", "\"//x\""]).to_string()
+}
+fn gen_expr(r: &mut Rng, d: u32, pool: &[String]) -> String {
+    if d == 0 || r.chance(1, 3) {
+        return match r.below(9) {
+            0 | 1 => gen_num(r, pool),
+            2 => gen_str(r),
+            3 => gen_ident(r),
+            4 => format!("{}.{}", gen_ident(r), gen_ident(r)),
+            5 => format!("${}", gen_ident(r)),
+            6 => r.pick(&["true", "FALSE", "null", "NULL"]).to_string(),
+            7 => format!("{}.{}.{}", gen_ident(r), gen_ident(r), gen_ident(r)),
+            _ => "count(*)".to_string(),
+        };
+    }
+    let d1 = d - 1;
+    match r.below(22) {
+        0 => format!("({})", gen_expr(r, d1, pool)),
+        1 => format!("-{}", gen_expr(r, d1, pool)),
+        2 => format!("NOT {}", gen_expr(r, d1, pool)),
+        3 | 4 | 5 => {
+            let op = *r.pick(&["+", "-", "*", "/", "%", "^", "=", "<>", "<", ">", "<=", ">=", " AND ", " OR ", " XOR ", " IN ", " STARTS WITH ", " ENDS WITH ", " CONTAINS ", "=~", "!=", "=="]);
+            format!("{}{}{}", gen_expr(r, d1, pool), op, gen_expr(r, d1, pool))
+        }
+        6 => format!("[{}]", (0..r.below(4)).map(|_| gen_expr(r, d1, pool)).collect::<Vec<_>>().join(", ")),
+        7 => format!("{{k: {}, `j`: {}}}", gen_expr(r, d1, pool), gen_expr(r, d1, pool)).replace('`', ""),
+        8 => format!("{}({})", r.pick(&["abs", "toInteger", "size", "coalesce", "range", "sum", "collect", "date"]), (0..r.below(3)).map(|_| gen_expr(r, d1, pool)).collect::<Vec<_>>().join(",")),
+        9 => format!("{}[{}]", gen_expr(r, d1, pool), gen_expr(r, d1, pool)),
+        10 => format!("{}[{}..{}]", gen_expr(r, d1, pool), if r.chance(1, 2) { gen_num(r, pool) } else { String::new() }, if r.chance(1, 2) { gen_num(r, pool) } else { String::new() }),
+        11 => format!("CASE WHEN {} THEN {} ELSE {} END", gen_expr(r, d1, pool), gen_expr(r, d1, pool), gen_expr(r, d1, pool)),
+        12 => format!("CASE {} WHEN {} THEN {} END", gen_expr(r, d1, pool), gen_expr(r, d1, pool), gen_expr(r, d1, pool)),
+        13 => format!("[x IN {} WHERE {} | {}]", gen_expr(r, d1, pool), gen_expr(r, d1, pool), gen_expr(r, d1, pool)),
+        14 => format!("{}(x IN {} WHERE {})", r.pick(&["all", "any", "none", "single"]), gen_expr(r, d1, pool), gen_expr(r, d1, pool)),
+        15 => format!("reduce(acc = {}, x IN {} | {})", gen_expr(r, d1, pool), gen_expr(r, d1, pool), gen_expr(r, d1, pool)),
+        16 => format!("{} IS {}NULL", gen_expr(r, d1, pool), if r.chance(1, 2) { "NOT " } else { "" }),
+        17 => format!("EXISTS {{ MATCH {} WHERE {} }}", gen_pattern(r, pool), gen_expr(r, d1, pool)),
+        18 => format!("[{} | {}]", gen_path(r, pool), gen_expr(r, d1, pool)),
+        19 => format!("{}:{}", gen_ident(r), gen_ident(r)),
+        20 => format!("{}.{}", gen_expr(r, d1, pool), gen_ident(r)),
+        _ => format!("count(DISTINCT {})", gen_expr(r, d1, pool)),
+    }
+}
+fn gen_props(r: &mut Rng, pool: &[String]) -> String {
+    if r.chance(1, 2) {
+        return String::new();
+    }
+    format!(" {{{}}}", (0..r.range(1, 3)).map(|_| format!("{}: {}", gen_ident(r), if r.chance(2, 3) { let s = if r.chance(1, 3) { "-" } else { "" }; format!("{}{}", s, gen_num(r, pool)) } else { gen_expr(r, 1, pool) })).collect::<Vec<_>>().join(", "))
+}
+fn gen_node(r: &mut Rng, pool: &[String]) -> String {
+    format!("({}{}{})", if r.chance(2, 3) { gen_ident(r) } else { String::new() }, if r.chance(1, 2) { format!(":{}", gen_ident(r)) } else { String::new() }, gen_props(r, pool))
+}
+fn gen_len(r: &mut Rng, pool: &[String]) -> String {
+    let ws = |r: &mut Rng| r.pick(&["", "", " ", "/**/", "\t"]).to_string();
+    match r.below(8) {
+        0 | 1 => String::new(),
+        2 => "*".to_string(),
+        3 => format!("*{}", gen_num(r, pool)),
+        4 => format!("*{}{}..{}{}", gen_num(r, pool), ws(r), ws(r), gen_num(r, pool)),
+        5 => format!("*{}..{}", ws(r), gen_num(r, pool)),
+        6 => format!("*{}{}..", gen_num(r, pool), ws(r)),
+        _ => "*..".to_string(),
+    }
+}
+fn gen_edge(r: &mut Rng, pool: &[String]) -> String {
+    let detail = if r.chance(1, 5) {
+        String::new()
+    } else {
+        format!("[{}{}{}{}]", if r.chance(1, 2) { gen_ident(r) } else { String::new() }, if r.chance(1, 2) { format!(":{}{}", gen_ident(r), if r.chance(1, 3) { "|B" } else { "" }) } else { String::new() }, gen_len(r, pool), gen_props(r, pool))
+    };
+    match r.below(3) {
+        0 => format!("<-{}-", detail),
+        1 => format!("-{}->", detail),
+        _ => format!("-{}-", detail),
+    }
+}
+fn gen_path(r: &mut Rng, pool: &[String]) -> String {
+    let mut s = gen_node(r, pool);
+    for _ in 0..r.range(1, 2) {
+        s.push_str(&gen_edge(r, pool));
+        s.push_str(&gen_node(r, pool));
+    }
+    s
+}
+fn gen_pattern(r: &mut Rng, pool: &[String]) -> String {
+    let mut v = Vec::new();
+    for _ in 0..r.range(1, 2) {
+        let p = if r.chance(1, 3) { gen_node(r, pool) } else { gen_path(r, pool) };
+        v.push(match r.below(6) {
+            0 => format!("p = {}", p),
+            1 => format!("shortestPath({})", p),
+            _ => p,
+        });
+    }
+    v.join(", ")
+}
+fn gen_tail(r: &mut Rng, pool: &[String]) -> String {
+    let mut s = String::new();
+    if r.chance(1, 3) {
+        s.push_str(&format!(" ORDER BY {} {}", gen_expr(r, 1, pool), r.pick(&["", "ASC", "DESC"])));
+    }
+    if r.chance(1, 2) {
+        s.push_str(&format!(" SKIP {}", gen_num(r, pool)));
+    }
+    if r.chance(1, 2) {
+        s.push_str(&format!(" LIMIT {}", gen_num(r, pool)));
+    }
+    s
+}
+fn gen_return(r: &mut Rng, pool: &[String]) -> String {
+    format!(" RETURN {}{}{}", if r.chance(1, 5) { "DISTINCT " } else { "" }, (0..r.range(1, 3)).map(|i| if r.chance(1, 8) { "*".to_string() } else { format!("{} AS c{}", gen_expr(r, 3, pool), i) }).collect::<Vec<_>>().join(", "), gen_tail(r, pool))
+}
+fn gen_query(r: &mut Rng, pool: &[String]) -> String {
+    let mut q = String::new();
+    if r.chance(1, 10) {
+        q.push_str(*r.pick(&["EXPLAIN ", "PROFILE "]));
+    }
+    let n = r.range(1, 4);
+    for _ in 0..n {
+        let c = match r.below(14) {
+            0 | 1 | 2 => format!("MATCH {}", gen_pattern(r, pool)),
+            3 => format!("OPTIONAL MATCH {}", gen_pattern(r, pool)),
+            4 => format!("WHERE {}", gen_expr(r, 3, pool)),
+            5 => format!("WITH {} AS w{}", gen_expr(r, 2, pool), gen_tail(r, pool)),
+            6 => format!("UNWIND {} AS u", gen_expr(r, 2, pool)),
+            7 => format!("CREATE {}", gen_pattern(r, pool)),
+            8 => format!("MERGE {} ON CREATE SET n.x = {}", gen_path(r, pool), gen_expr(r, 2, pool)),
+            9 => format!("SET n.{} = {}", gen_ident(r), gen_expr(r, 2, pool)),
+            10 => format!("{}DELETE {}", if r.chance(1, 2) { "DETACH " } else { "" }, gen_ident(r)),
+            11 => format!("CALL db.{}({}) YIELD a", gen_ident(r), gen_expr(r, 1, pool)),
+            12 => format!("FOREACH (i IN {} | SET n.x = {})", gen_expr(r, 1, pool), gen_expr(r, 1, pool)),
+            _ => format!("REMOVE n.{}", gen_ident(r)),
+        };
+        q.push_str(&c);
+        q.push(' ');
+    }
+    if r.chance(4, 5) {
+        q.push_str(&gen_return(r, pool));
+    }
+    if r.chance(1, 12) {
+        q.push_str(&format!(" UNION {}RETURN {}", if r.chance(1, 2) { "ALL " } else { "" }, gen_expr(r, 2, pool)));
+    }
+    if r.chance(1, 10) {
+        q.push(';');
+    }
+    q
+}
+
+const SEEDS: &[&str] = &[
+    "MATCH (n:Person {name: 'Alice', age: 30})-[r:KNOWS*1..3]->(m) WHERE n.age > 25 AND m.x IN [1, 2.5, -3] RETURN n.name AS name, count(*) ORDER BY name DESC SKIP 1 LIMIT 10",
+    "CREATE (a:A {v: -9223372036854775808, f: 1.5e3})-[:R {w: 0x1F}]->(b:B {l: [1, 2, 3]}) RETURN a",
+    "UNWIND [1, 2, 3] AS x WITH x SKIP 1 LIMIT 2 WHERE x > 1 RETURN x, [y IN range(0, 10) WHERE y % 2 = 0 | y * 2][1..3]",
+    "MATCH p = shortestPath((a)-[:T*..5]-(b)) RETURN p, CASE WHEN a.v > 0o17 THEN 'big' ELSE 'small' END",
+    "CALL db.labels() YIELD label RETURN label LIMIT 5",
+    "MERGE (n:L {id: 1}) ON CREATE SET n.c = 1 ON MATCH SET n.c = n.c + 1 RETURN n",
+    "MATCH (n) WHERE NOT n.name STARTS WITH 'A' AND n.tags[0] = 'x' OR n:Admin RETURN reduce(s = 0, v IN n.vals | s + v) AS total",
+    "CREATE INDEX ON :Person(name)",
+    "CREATE VECTOR INDEX idx FOR (n:Doc) ON (n.emb) OPTIONS {dimensions: 128, similarity: 'cosine'}",
+    "MATCH (a)-->(b)<--(c)--(d) RETURN a, b, c, d LIMIT 0x10",
+    "RETURN -9223372036854775808, 9223372036854775807, 1e308, .5, 0x7FFFFFFFFFFFFFFF, [1,2,3][-1], {a: 1, b: [2, {c: 3}]}",
+    "MATCH (n) DETACH DELETE n",
+    "FOREACH (i IN [1,2,3] | CREATE (:N {i: i}))",
+    "MATCH (n) WHERE EXISTS { MATCH (n)-[:R*2]->(m) WHERE m.v = 1 } RETURN [(n)-[:R]->(x) WHERE x.v > 1 | x.v] AS xs // trailing comment",
+    "EXPLAIN MATCH (n) RETURN n UNION ALL MATCH (m) RETURN m /* c */ ;",
+    "CREATE (a) WITH a CREATE (b) RETURN b SKIP 1 LIMIT 2",
+];
+
+fn mutate(r: &mut Rng, src: &str, pool: &[String]) -> String {
+    let mut cs: Vec<char> = src.chars().collect();
+    const SPECIAL: &[char] = &[
+        '(', ')', '[', ']', '{', '}', '*', '.', ',', ':', '-', '+', '<', '>', '=', '|', '$', '\'', '"', '\\', '/', ';', ' ', '\n', '\t',
+        '0', '9', 'e', 'E', 'x', 'o', '\0', '\u{7f}', '\u{85}', '\u{a0}', '\u{2028}', '\u{feff}', 'é', 'ß', '漢', '😀', '\u{301}', '\u{202e}', '\u{10ffff}',
+    ];
+    for _ in 0..r.range(1, 4) {
+        let n = cs.len();
+        match r.below(10) {
+            0 | 1 if n > 0 => {
+                let i = r.below(n as u64) as usize;
+                cs[i] = *r.pick(SPECIAL);
+            }
+            2 | 3 => {
+                let i = r.below(n as u64 + 1) as usize;
+                cs.insert(i, *r.pick(SPECIAL));
+            }
+            4 if n > 0 => {
+                let i = r.below(n as u64) as usize;
+                let k = (r.range(1, 6) as usize).min(n - i);
+                cs.drain(i..i + k);
+            }
+            5 if n > 0 => {
+                // duplicate a slice
+                let i = r.below(n as u64) as usize;
+                let k = (r.range(1, 12) as usize).min(n - i);
+                let s: Vec<char> = cs[i..i + k].to_vec();
+                let j = r.below(n as u64 + 1) as usize;
+                for (o, c) in s.into_iter().enumerate() {
+                    cs.insert(j + o, c);
+                }
+            }
+            6 if n > 0 => {
+                let i = r.below(n as u64) as usize;
+                cs.truncate(i);
+            }
+            7 => {
+                // splice a numeral
+                let i = r.below(n as u64 + 1) as usize;
+                let t: Vec<char> = r.pick(pool).chars().collect();
+                for (o, c) in t.into_iter().enumerate() {
+                    cs.insert(i + o, c);
+                }
+            }
+            8 => {
+                // very long token
+                let i = r.below(n as u64 + 1) as usize;
+                let c = *r.pick(&['9', 'a', '0', '_', 'f', ' ', '.', '-']);
+                let k = r.range(100, 6000) as usize;
+                for _ in 0..k {
+                    cs.insert(i, c);
+                }
+            }
+            _ => {
+                // moderate nesting around a random spot
+                let i = r.below(n as u64 + 1) as usize;
+                let (o, c) = *r.pick(&[('(', ')'), ('[', ']'), ('{', '}')]);
+                let k = r.range(2, 40) as usize;
+                for _ in 0..k {
+                    cs.insert(i, o);
+                }
+                let j = r.range(i as u64 + k as u64, cs.len() as u64) as usize;
+                for _ in 0..k {
+                    cs.insert(j, c);
+                }
+            }
+        }
+    }
+    cs.into_iter().collect()
+}
+
+// ---------------------------------------------------------------- deep nesting (child process)
+fn deep_query(kind: &str, n: usize) -> String {
+    match kind {
         "paren" => format!("RETURN {}1{}", "(".repeat(n), ")".repeat(n)),
         "list" => format!("RETURN {}1{}", "[".repeat(n), "]".repeat(n)),
-        "neg" => format!("RETURN {}1", "-".repeat(n)),
+        "map" => format!("RETURN {}1{}", "{a:".repeat(n), "}".repeat(n)),
+        "neg" => format!("RETURN {}1", "- ".repeat(n)),
         "not" => format!("RETURN {}true", "NOT ".repeat(n)),
         "fn" => format!("RETURN {}1{}", "abs(".repeat(n), ")".repeat(n)),
         "add" => format!("RETURN 1{}", "+1".repeat(n)),
-        "map" => format!("RETURN {}1{}", "{a:".repeat(n), "}".repeat(n)),
-        "idx" => format!("RETURN x{}", "[0]".repeat(n)),
         "pow" => format!("RETURN 1{}", "^1".repeat(n)),
+        "idx" => format!("RETURN x{}", "[0]".repeat(n)),
         "case" => format!("RETURN {}1{}", "CASE WHEN true THEN ".repeat(n), " END".repeat(n)),
-        _ => panic!(),
-    };
-    let t0 = std::time::Instant::now();
-    let h = std::thread::Builder::new().stack_size(mb << 20).spawn(move || {
-        let r = parse_query(&q);
-        match r { Ok(_) => "ok".to_string(), Err(e) => format!("err {}", e.to_string().chars().take(80).collect::<String>().replace('\n', " ")) }
-    }).unwrap();
-    let r = h.join();
-    println!("{kind} n={n} stack={mb}MB -> {:?} in {:?}", r.map_err(|_| "panic"), t0.elapsed());
+        "and" => format!("MATCH (n) WHERE true{} RETURN n", " AND true".repeat(n)),
+        "comp" => format!("RETURN {}1{}", "[x IN ".repeat(n), " | x]".repeat(n)),
+        _ => panic!("kind"),
+    }
+}
+const DEEP_KINDS: &[&str] = &["paren", "list", "map", "neg", "not", "fn", "add", "pow", "idx", "case", "and", "comp"];
+
+/// child: parse one deep query on a thread with the given stack; exit 0 ok/err, 3 panic; abort on overflow
+fn deep_child(kind: &str, n: usize, mb: usize) -> ! {
+    let q = deep_query(kind, n);
+    let h = std::thread::Builder::new()
+        .stack_size(mb << 20)
+        .spawn(move || {
+            let r = parse_query(&q);
+            // the AST is dropped here, on the same stack
+            r.is_ok()
+        })
+        .unwrap();
+    match h.join() {
+        Ok(_) => std::process::exit(0),
+        Err(_) => std::process::exit(3),
+    }
+}
+
+#[derive(PartialEq, Debug)]
+enum Deep {
+    Fine,
+    Panic,
+    Abort(String),
+}
+fn deep_run(kind: &str, n: usize, mb: usize) -> Deep {
+    let exe = std::env::current_exe().expect("exe");
+    let o = std::process::Command::new(exe)
+        .args(["--deep", kind, &n.to_string(), &mb.to_string()])
+        .output()
+        .expect("spawn child");
+    match o.status.code() {
+        Some(0) => Deep::Fine,
+        Some(3) => Deep::Panic,
+        c => Deep::Abort(format!("child status {:?} ({})", c, String::from_utf8_lossy(&o.stderr).lines().last().unwrap_or("").trim())),
+    }
+}
+
+// ---------------------------------------------------------------- main
+fn main() {
+    let argv: Vec<String> = std::env::args().collect();
+    if argv.len() == 5 && argv[1] == "--deep" {
+        deep_child(&argv[2], argv[3].parse().unwrap(), argv[4].parse().unwrap());
+    }
+    let args = parse_args();
+    quiet_panics();
+    // everything runs on a large stack so that moderately nested fuzz inputs are judged by
+    // `catch`, not by the size of the harness' own stack
+    let h = std::thread::Builder::new().stack_size(1 << 30).spawn(move || real_main(args)).unwrap();
+    h.join().expect("harness thread");
+}
+
+fn real_main(args: Args) {
+    let out = Out::new(&args, "From Verif Require Import Numeral.", "Numeral.case", "Numeral.check_case", 250);
+    let mut cx = Ctx { out };
+    cx.out.rule = "accepted => the number in the AST equals the written numeral (integer literals, SKIP/LIMIT, variable-length bounds; floats: finite and correctly rounded); never a panic (numeral positions, generated and mutated queries, deep nesting)".into();
+    let mut r = Rng::new(args.seed);
+    let scale = if args.thorough { 8 } else { 1 };
+    let ints = int_pool(&mut r, 60 * scale);
+    let floats = float_pool(&mut r, 40 * scale);
+
+    // ---- (i) integer literal positions
+    for t in &ints {
+        let neg = format!("-{}", t);
+        cx.int_case(&format!("RETURN {}", t), t, "return");
+        cx.int_case(&format!("RETURN -{}", t), &neg, "return-neg");
+        cx.int_case(&format!("RETURN - /*c*/ {}", t), &neg, "return-neg-ws");
+        cx.int_case(&format!("CREATE (a:L {{n: {}}})", t), t, "prop");
+        cx.int_case(&format!("CREATE (a:L {{n: {}}})", neg), &neg, "prop-neg");
+        cx.int_case(&format!("RETURN [{}]", t), t, "list");
+        cx.int_case(&format!("RETURN [{}]", neg), &neg, "list-neg");
+        cx.int_case(&format!("RETURN x[{}]", t), t, "index");
+        cx.int_case(&format!("MATCH (n) WHERE n.v = {} RETURN n", t), t, "where");
+        cx.int_case(&format!("MATCH (n {{k: {}}}) RETURN n", neg), &neg, "match-prop-neg");
+        cx.int_case(&format!("RETURN {{k: {}}}", t), t, "map");
+        cx.int_case(&format!("UNWIND [{}] AS x RETURN x", neg), &neg, "unwind-neg");
+        cx.int_case(&format!("RETURN abs({})", t), t, "fn-arg");
+        cx.int_case(&format!("RETURN x[{}..]", t), t, "slice");
+    }
+
+    // ---- SKIP / LIMIT in every statement shape
+    type Getter = Box<dyn Fn(&Query) -> Option<usize>>;
+    let shapes: Vec<(&str, &str, Getter)> = vec![
+        ("return", "RETURN 'a' {K} {X}", Box::new(|q: &Query| q.skip.or(q.limit))),
+        ("with-return", "WITH 'a' AS x RETURN x {K} {X}", Box::new(|q: &Query| q.skip.or(q.limit))),
+        ("match", "MATCH (n) RETURN n {K} {X}", Box::new(|q: &Query| q.skip.or(q.limit))),
+        ("create", "CREATE (a) RETURN a {K} {X}", Box::new(|q: &Query| q.skip.or(q.limit))),
+        ("call", "CALL db.labels() YIELD label RETURN label {K} {X}", Box::new(|q: &Query| q.skip.or(q.limit))),
+        ("pipeline", "CREATE (a) WITH a CREATE (b) RETURN b {K} {X}", Box::new(|q: &Query| q.skip.or(q.limit))),
+        ("unwind", "UNWIND ['a'] AS x RETURN x {K} {X}", Box::new(|q: &Query| q.skip.or(q.limit))),
+        ("with-clause", "MATCH (n) WITH n {K} {X} RETURN n", Box::new(|q: &Query| q.with_clause.as_ref().and_then(|w| w.skip.or(w.limit)))),
+        ("union", "RETURN 'a' AS c UNION RETURN 'b' AS c {K} {X}", Box::new(|q: &Query| q.union_queries.first().and_then(|u| u.0.skip.or(u.0.limit)))),
+        ("order-by", "MATCH (n) RETURN n ORDER BY n.name {K} {X}", Box::new(|q: &Query| q.skip.or(q.limit))),
+    ];
+    for (ti, t) in ints.iter().enumerate() {
+        for (si, (pos, tpl, get)) in shapes.iter().enumerate() {
+            let kw = if (ti + si) % 2 == 0 { "SKIP" } else { "LIMIT" };
+            let tok = if (ti + si) % 5 == 4 { format!("-{}", t) } else { t.clone() };
+            let q = tpl.replace("{K}", kw).replace("{X}", &tok);
+            cx.count_case(&q, &tok, &format!("{}-{}", pos, kw), get.as_ref());
+        }
+    }
+
+    // ---- variable-length bounds
+    let wss = ["", "", "", " ", "  ", "\t", "\n", "/**/", "/*..*/", " /* 3..4 */ ", "//x\n"];
+    cx.len_case(0, "", "", "", "", "", &mut r);
+    cx.len_case(5, "", "", "", "", "", &mut r);
+    cx.len_case(5, "", "", "", "", " ", &mut r);
+    for (ti, t) in ints.iter().enumerate() {
+        let other = if r.chance(1, 2) { r.pick(&["0", "1", "2", "5", "10", "0x3", "0o7"]).to_string() } else { r.pick(&ints).clone() };
+        let lo = if ti % 7 == 6 { format!("-{}", t) } else { t.clone() };
+        let pre = *r.pick(&["", "", "", " ", "/*c*/", "\n"]);
+        cx.len_case(1, &lo, "", "", "", pre, &mut r);
+        let (w1, w2) = (*r.pick(&wss), *r.pick(&wss));
+        cx.len_case(2, &lo, w1, w2, &other, pre, &mut r);
+        let (w1, w2) = (*r.pick(&wss), *r.pick(&wss));
+        cx.len_case(2, &other, w1, w2, &lo, pre, &mut r);
+        cx.len_case(3, "", "", *r.pick(&wss), &lo, pre, &mut r);
+        cx.len_case(4, &lo, *r.pick(&wss), "", "", pre, &mut r);
+    }
+
+    // ---- float literals
+    for t in &floats {
+        if !is_grammar_float(t) {
+            cx.fuzz(&format!("RETURN {}", t), "non-float numeral");
+            continue;
+        }
+        let neg = format!("-{}", t);
+        cx.float_case(&format!("RETURN {}", t), t, false, "return");
+        cx.float_case(&format!("RETURN -{}", t), t, true, "return-neg");
+        cx.float_case(&format!("CREATE (a {{f: {}}})", neg), &neg, false, "prop-neg");
+        cx.float_case(&format!("RETURN [{}]", t), t, false, "list");
+        cx.float_case(&format!("MATCH (n) WHERE n.v < {} RETURN n", t), t, false, "where");
+    }
+    for t in ["1.", "1.e5", "1e", "1e+", ".", ".e5", "0x", "0o", "0x1G", "0o8", "1_000", "0b101", "1e5.5", "1..2", "+5", "--5", "0x-5", "٣", "１２"] {
+        for q in [format!("RETURN {}", t), format!("RETURN 1 LIMIT {}", t), format!("MATCH (a)-[*{}]->(b) RETURN a", t), format!("CREATE (a {{n: {}}})", t)] {
+            cx.fuzz(&q, "malformed numeral");
+        }
+    }
+
+    // ---- (ii) generated queries and mutations
+    let n_gen = if args.thorough { 60_000 } else { 5_000 };
+    let n_mut = if args.thorough { 400_000 } else { 25_000 };
+    for i in 0..n_gen {
+        let mut rc = Rng::for_case(args.seed, 1_000_000 + i);
+        let q = gen_query(&mut rc, &ints);
+        cx.fuzz(&q, "generated");
+        if i % 2 == 0 {
+            let m = mutate(&mut rc, &q, &ints);
+            cx.fuzz(&m, "generated+mutated");
+        }
+    }
+    for i in 0..n_mut {
+        let mut rc = Rng::for_case(args.seed, 9_000_000 + i);
+        let base = *rc.pick(SEEDS);
+        let m = mutate(&mut rc, base, &ints);
+        cx.fuzz(&m, "mutated");
+    }
+    for s in SEEDS {
+        match run(s) {
+            Res::Ok(_) => cx.out.count("seed_queries_accepted"),
+            _ => cx.out.count("seed_queries_rejected"),
+        }
+        // every prefix and every single-character deletion
+        let cs: Vec<char> = s.chars().collect();
+        for k in 0..cs.len() {
+            cx.fuzz(&cs[..k].iter().collect::<String>(), "prefix");
+            let mut d = cs.clone();
+            d.remove(k);
+            cx.fuzz(&d.into_iter().collect::<String>(), "deletion");
+        }
+    }
+
+    // ---- deep nesting, in child processes (a stack overflow aborts the process)
+    // Moderate depth on a 2 MiB stack (tokio's default worker stack) must be fine; beyond that
+    // the recursive-descent parser and the recursive AST overflow the stack: known finding.
+    if args.only.is_none() {
+        let moderate = [8usize, 32, 100];
+        for kind in DEEP_KINDS {
+            for &n in &moderate {
+                cx.out.count("deep_moderate_probes");
+                match deep_run(kind, n, 2) {
+                    Deep::Fine => cx.out.count("deep_moderate_fine"),
+                    other => {
+                        let human = format!("deep[{} x{} @2MiB] {:.60}…", kind, n, deep_query(kind, n));
+                        let idx = cx.out.case(format!("CNoPanic {} true", g_bytes(deep_query(kind, n).as_bytes())), human.clone(), true);
+                        cx.out.fail(idx, &human, &format!("{:?}", other), None);
+                    }
+                }
+            }
+        }
+        let depths: &[usize] = if args.thorough { &[1000, 3000, 20000] } else { &[3000] };
+        for kind in DEEP_KINDS {
+            for &n in depths {
+                cx.out.count("deep_probes");
+                let res = deep_run(kind, n, 2);
+                match res {
+                    Deep::Fine => cx.out.count("deep_fine"),
+                    Deep::Panic | Deep::Abort(_) => {
+                        cx.out.count("deep_overflow");
+                        let human = format!("deep[{} x{} @2MiB]", kind, n);
+                        let idx = cx.out.skip();
+                        cx.out.fail(idx, &human, &format!("{:?}", res), Some(KNOWN_DEEP));
+                    }
+                }
+            }
+        }
+        // stored witness of the known finding, replayed every run
+        let w = deep_run("paren", 1000, 2);
+        cx.out.known.push(KnownReplay {
+            class: KNOWN_DEEP.into(),
+            still_fails: w != Deep::Fine,
+            detail: format!("RETURN + 1000 nested parentheses around 1, parsed on a 2 MiB stack: {:?}", w),
+        });
+    }
+    cx.out.finish();
 }
